@@ -149,7 +149,7 @@ def run_script(script, with_lineage=True, beats=0, race=False):
     saved_emitter = Filter.emitter
     saved_destroy = of_mq.MQ.destroy
     saved_send_exit = of_mq.MQ.send_exit_msg
-    fake_time = types.SimpleNamespace(time=lambda: w.now / 1e9, sleep=lambda s: w.on_sleep(s))
+    fake_time = vlib.FakeTime(lambda: w.now, lambda s: w.on_sleep(s))
     saved_time = of_filter.time
     in_fini = lambda: bool(rec) and rec[-1] == ['f']
 
